@@ -156,6 +156,15 @@ def match_known(d, known):
     return None
 
 
+def replay_witness(ctx, kf):
+    common.import_pyrefact()
+    w = kf["witness"]
+    if "src" in w and "stage" in w:
+        res = task_stages((w["src"],))
+        return any(b[0] == w["stage"] for b in res.get("bad", []))
+    return None
+
+
 def search(ctx, breaks):
     common.import_pyrefact()
     return stages_oracle(ctx).disagreements[:5]
